@@ -323,8 +323,8 @@ func baseTypes() []typeSpec {
 		{reflect.TypeOf(int(0)), mk(0, 1, -7, math.MaxInt64)},
 		{reflect.TypeOf(int8(0)), mk(int8(0), int8(-128))},
 		{reflect.TypeOf(uint16(0)), mk(uint16(0), uint16(65535))},
-		{reflect.TypeOf(float32(0)), mk(float32(0), float32(1e-7), float32(3e21), float32(1.5))},
-		{reflect.TypeOf(float64(0)), mk(0.0, 1e-7, 1e21, 1.5, 2.5e-9, 100.0, math.Copysign(0, -1), math.NaN(), math.Inf(1), math.MaxFloat64)},
+		{reflect.TypeOf(float32(0)), mk(float32(0), float32(math.Copysign(0, -1)), float32(1e-7), float32(3e21), float32(1.5))},
+		{reflect.TypeOf(float64(0)), mk(0.0, math.Copysign(0, -1), 1e-7, 1e21, 1.5, 2.5e-9, 100.0, math.NaN(), math.Inf(1), math.MaxFloat64)},
 		{reflect.TypeOf(""), mk("", "a", "<&>", "  ", "\xff\xfe", "\b\f\n\x00\x7f", "é\U0001F600", `"\`)},
 		{reflect.TypeOf([]byte(nil)), mk([]byte(nil), []byte{}, []byte("hi?>"))},
 		{anyT, anyVals},
@@ -1011,7 +1011,7 @@ func (c *codecRun) marshalCompare(tn string, v reflect.Value) []byte {
 	}))
 	// Encoder, every setting
 	for _, esc := range []bool{true, false} {
-		for _, ind := range [][2]string{{"", ""}, {"", " "}, {"p", "\t"}} {
+		for _, ind := range [][2]string{{"", ""}, {"", " "}, {"p", "\t"}, {">", ""}} {
 			f := run(func() ([]byte, error) {
 				var b bytes.Buffer
 				e := zj.NewEncoder(&b)
